@@ -10,7 +10,10 @@ RULE = ("symbol arrays of length 1..2e4 (quick) / 1e5 (thorough), 1..4 component
         "all-distinct up to 2^18(+1) symbols, sparse values up to 2^26, values up to 2^32-1 (tagged); encoder bytes of "
         "the model (Float instance) == EncodeSymbols bytes; real encode -> decode with trailing bytes evaluated on the "
         "implementation (values and consumed bytes); decoder on damaged / truncated blocks and wrong counts compared "
-        "with the model under ASan+UBSan; distinct op lines")
+        "with the model under ASan+UBSan; distinct op lines"
+        '; fixed families: wide rANS states (raw scheme running with >= 17 precision bits), the 2^14 table-entry '
+        'boundary alphabet, thorough: the automatic mode on 2^18 distinct symbols; model-only rans_oracle lines '
+        'sample the five oracle facts of create_complete on the binary64 oracle')
 THEOREM_BACKED = ("rans_roundtrip, table_roundtrip, create_sound (any oracle), raw_roundtrip, tagged_roundtrip, "
                   "symbols_roundtrip (every oracle, scheme, level), symbols_roundtrip_float, create_complete (+ sharpness "
                   "witness), precision_suffices(_table), symbols_failure_characterised, scheme_choice_irrelevant")
